@@ -182,6 +182,23 @@ Definition cb_run (add_wallclock_time : bool) (evs : list event) : option cb_sta
   | None => None
   end.
 
+(* An experiment that is interrupted and resumed (Tuner.load, run() again): the callback
+   object travels inside tuner.dill WITH its rows; every phase is on_tuning_start, the
+   deliveries of that phase, on_tuning_end.  on_tuning_start only sets the path of the
+   file and the clock: rows already held are kept, whatever the (new) path is. *)
+Fixpoint cb_phases (s : cb_state) (phases : list (list event)) : option cb_state :=
+  match phases with
+  | [] => Some s
+  | evs :: rest =>
+      match cb_feed (cb_on_tuning_start s) evs with
+      | Some s' => cb_phases (cb_on_tuning_end s') rest
+      | None => None
+      end
+  end.
+
+Definition cb_run_phases (add_wallclock_time : bool) (phases : list (list event)) : option cb_state :=
+  cb_phases (cb_init add_wallclock_time) phases.
+
 (* ======================================================================== *)
 (* MetricsStatistics / TuningStatus                                         *)
 (* ======================================================================== *)
